@@ -1092,7 +1092,26 @@ theorem parses_reslice (ks : List Kind) (body : List (Stmt ε)) (hwf : Stmts.WF 
   | nil => rw [hts] at hsplit; exact (Parses.s_reslice_empty hsplit).s_to rfl
   | cons b0 bs => rw [hts] at hsplit hbody; exact (Parses.s_reslice hsplit hbody).s_to rfl
 
-theorem parses_methodmods (B : List Tok) (h : SStop B) : Parses (.ref nMethodMods) B B (Tree.list []) := by
+/-- what may follow the name / the parameters of a method header -/
+def HStop (k : List Tok) : Prop := ∀ t r, k = t :: r → t.kind ∉ [Kind.Comment, Kind.OBracket, Kind.Pound]
+
+theorem HStop.cons {t : Tok} {r : List Tok} (h : t.kind ∉ [Kind.Comment, Kind.OBracket, Kind.Pound]) : HStop (t :: r) := by
+  intro t' r' e; cases e; exact h
+
+theorem HStop.of_sstop {k : List Tok} (h : SStop k) : HStop k := by
+  intro t r e hin
+  have := h t r e
+  simp only [List.mem_cons, List.not_mem_nil, or_false] at hin
+  rcases hin with hin | hin | hin <;> rw [hin] at this <;> exact this (by decide +kernel)
+
+theorem HStop.fails_pound {k : List Tok} (h : HStop k) : Fails (.tok Kind.Pound) k := by
+  cases k with
+  | nil => exact Fails.tok_nil
+  | cons t r =>
+    have hb := h t r rfl
+    exact Fails.tok (fun e => hb (by simp [e])) (fun e => hb (by simp [e]))
+
+theorem parses_methodmods_nil (B : List Tok) (h : SStop B) : Parses (.ref nMethodMods) B B (Tree.list []) := by
   cases B with
   | nil => exact Parses.ref (n := nMethodMods) (Parses.s_ifEof_nil Parses.eps)
   | cons t r =>
@@ -1107,24 +1126,221 @@ theorem parses_methodmods (B : List Tok) (h : SStop B) : Parses (.ref nMethodMod
     exact Parses.ref (n := nMethodMods) (Parses.s_ifEof_cons (a := .eps (Tree.list []))
       (Parses.alt2 (Fails.map (Fails.seq1 hmod)) Parses.eps))
 
-theorem parses_methodname (name : Tok) (R : List Tok) (hn : name.kind ∈ identKinds) (hp : Fails (.tok Kind.Pound) R) :
-    Parses gMethodName (name :: R) R (terminal (.leaf name)) := by
-  have hid := parses_identifier name R hn
-  exact Parses.alt2 (Fails.map (Fails.seqL (pre := [.ref nIdentifier]) (ParsesList.cons hid ParsesList.nil) hp)) hid
+theorem parses_mname (name : MName) (h : name.WF) (R : List Tok) (hp : Fails (.tok Kind.Pound) R) :
+    Parses gMethodName (name.toks ++ R) R name.tree := by
+  cases name with
+  | plain t =>
+    have hid := parses_identifier t R h
+    exact Parses.alt2 (Fails.map (Fails.seqL (pre := [.ref nIdentifier]) (ParsesList.cons hid ParsesList.nil) hp)) hid
+  | event m p e =>
+    obtain ⟨hm, hpd, he⟩ := h
+    exact Parses.alt1 ((Parses.map (Parses.seqL (ParsesList.cons (parses_identifier m (p :: e :: R) hm)
+      (ParsesList.cons (Parses.tok hpd) (ParsesList.cons (parses_identifier e R he) ParsesList.nil))))).s_to rfl)
 
-theorem fails_pound (ps : Option ParamList) (hps : optParamsWF ps) (B : List Tok) (hB : SStop B) :
+theorem mod_table : ∀ x ∈ memberModKinds, x ≠ Kind.Comment ∧ x ≠ Kind.Forward ∧ x ≠ Kind.External ∧
+    x ∉ [Kind.Comment, Kind.OBracket, Kind.Pound] := by decide +kernel
+
+theorem parses_modtok (m : Mod) (h : m.WF) (R : List Tok) : Parses gMethodModTok (m.toks ++ R) R (.leaf m.leaf) := by
+  cases m with
+  | plain t =>
+    rcases h with h | h
+    · exact Parses.altL (pre := []) (post := [gExternal, .tok Kind.Forward]) (by intro a ha; cases ha)
+        (Parses.toks h (mod_table _ h).1)
+    · have hc : t.kind ≠ Kind.Comment := by rw [h]; decide
+      exact Parses.altL (pre := [toks memberModKinds, gExternal]) (post := []) (by
+        intro a ha
+        simp only [List.mem_cons, List.not_mem_nil, or_false] at ha
+        rcases ha with rfl | rfl
+        · exact Fails.toks (by rw [h]; decide) hc
+        · exact Fails.map (fails_kw_seqL t R _ _ (by rw [h]; decide) hc)) (Parses.tok h)
+  | ext e s =>
+    obtain ⟨he, hs⟩ := h
+    have hc : e.kind ≠ Kind.Comment := by rw [he]; decide
+    exact Parses.altL (pre := [toks memberModKinds]) (post := [.tok Kind.Forward]) (by
+      intro a ha
+      simp only [List.mem_cons, List.not_mem_nil, or_false] at ha
+      subst ha
+      exact Fails.toks (by rw [he]; decide) hc)
+      ((Parses.map (Parses.seqL (ParsesList.cons (Parses.tok he) (ParsesList.cons (Parses.tok hs) ParsesList.nil)))).s_to rfl)
+
+/-- `parse_until_no_match(parse_method_modifier_tokens)`: the modifiers, then what the end of the list yields -/
+theorem parses_mods (ms : List Mod) (hwf : modsWF ms) (B : List Tok) (hB : Parses (.ref nMethodMods) B B (Tree.list [])) :
+    Parses (.ref nMethodMods) (modsToks ms ++ B) B (Tree.list (ms.map (fun m => Tree.leaf m.leaf))) := by
+  induction ms with
+  | nil => exact hB
+  | cons m rest ih =>
+    have hm := parses_modtok m hwf.1 (modsToks rest ++ B)
+    have ih' := ih hwf.2
+    obtain ⟨t, r, ht⟩ : ∃ t r, m.toks ++ (modsToks rest ++ B) = t :: r := by cases m <;> exact ⟨_, _, rfl⟩
+    simp only [modsToks, List.append_assoc]
+    rw [ht] at hm ⊢
+    exact Parses.ref (n := nMethodMods) (Parses.s_ifEof_cons (a := .eps (Tree.list []))
+      (Parses.alt1 ((Parses.map (Parses.seq hm ih')).s_to rfl)))
+
+/-- value of `parse_method_modifiers` -/
+def modsVal (ms : List Mod) : Tree := match modsNode ms with | some t => t | none => Tree.none
+
+theorem methodMods_val (ms : List Mod) : methodModsNode (Tree.list (ms.map (fun m => Tree.leaf m.leaf))) = modsVal ms := by
+  cases ms with
+  | nil => rfl
+  | cons m rest =>
+    have hl : lastD ((m :: rest).map (fun m => Tree.leaf m.leaf)) (Tree.leaf m.leaf) =
+        Tree.leaf (((m :: rest).getLast?).getD m).leaf := by
+      simp only [lastD, List.getLast?_map]
+      cases (m :: rest).getLast? <;> rfl
+    have ha : ((m :: rest).map (fun m => Tree.leaf m.leaf)).map (fun t => t.kind) = modsAttrs (m :: rest) := by
+      simp [modsAttrs, List.map_map, Function.comp_def, Tree.kind]
+    show mk "method_modifiers" "method_modifiers"
+      (Range.span (Tree.leaf m.leaf).rng (lastD ((m :: rest).map (fun m => Tree.leaf m.leaf)) (Tree.leaf m.leaf)).rng) []
+      (((m :: rest).map (fun m => Tree.leaf m.leaf)).map (fun t => t.kind)) = _
+    rw [hl, ha]
+    rfl
+
+theorem mod_name (m : Mod) (h : m.WF) :
+    (("Forward" == m.leaf.kind.name) || ("StringLiteral" == m.leaf.kind.name)) = m.noBody := by
+  cases m with
+  | plain t =>
+    rcases h with h | h
+    · simp only [memberModKinds, List.mem_cons, List.not_mem_nil, or_false] at h
+      rcases h with h | h | h | h <;> simp only [Mod.leaf, Mod.noBody, h] <;> decide +kernel
+    · simp only [Mod.leaf, Mod.noBody, h]; decide +kernel
+  | ext e s =>
+    simp only [Mod.leaf, Mod.noBody, h.2]; decide +kernel
+
+theorem attrs_noBody (ms : List Mod) (hwf : modsWF ms) :
+    ((modsAttrs ms).contains "Forward" || (modsAttrs ms).contains "StringLiteral") = ms.any Mod.noBody := by
+  induction ms with
+  | nil => rfl
+  | cons m rest ih =>
+    have h1 := mod_name m hwf.1
+    have h2 := ih hwf.2
+    simp only [modsAttrs, List.map_cons, List.contains_cons, List.any_cons] at h2 ⊢
+    rw [← h1, ← h2]
+    generalize ("Forward" == m.leaf.kind.name) = a
+    generalize ("StringLiteral" == m.leaf.kind.name) = b
+    generalize (List.map (fun m => m.leaf.kind.name) rest).contains "Forward" = c
+    generalize (List.map (fun m => m.leaf.kind.name) rest).contains "StringLiteral" = d
+    cases a <;> cases b <;> cases c <;> cases d <;> rfl
+
+theorem hasBody_val (ms : List Mod) (hwf : modsWF ms) : hasBody (modsVal ms) = hasBodyB ms := by
+  cases ms with
+  | nil => rfl
+  | cons m rest =>
+    have := attrs_noBody (m :: rest) hwf
+    show (false || !((modsAttrs (m :: rest)).contains "Forward" || (modsAttrs (m :: rest)).contains "StringLiteral")) = _
+    rw [this]
+    rfl
+
+/-- the header stops being a name / parameter list at the first modifier -/
+theorem hstop_mods (ms : List Mod) (hwf : modsWF ms) (B : List Tok) (hB : HStop B) : HStop (modsToks ms ++ B) := by
+  cases ms with
+  | nil => exact hB
+  | cons m rest =>
+    cases m with
+    | plain t =>
+      rcases hwf.1 with h | h
+      · exact HStop.cons (mod_table _ h).2.2.2
+      · exact HStop.cons (by rw [h]; decide)
+    | ext e s => exact HStop.cons (by rw [hwf.1.1]; decide)
+
+theorem fails_pound (ps : Option ParamList) (hps : optParamsWF ps) (B : List Tok) (hB : HStop B) :
     Fails (.tok Kind.Pound) (optParamsToks ps ++ B) := by
   cases ps with
-  | none => exact hB.fails_tok _ (by decide +kernel)
+  | none => exact hB.fails_pound
   | some p =>
     cases p with
     | empty lp rp => exact Fails.tok (by rw [hps.1]; decide) (by rw [hps.1]; decide)
     | cons lp first rest rp => exact Fails.tok (by rw [hps.1]; decide) (by rw [hps.1]; decide)
 
+theorem parses_optparams_h (ps : Option ParamList) (h : optParamsWF ps) (k : List Tok) (hk : HStop k) :
+    Parses (.ref nParamList) (optParamsToks ps ++ k) k (optParamsVal ps) := by
+  cases ps with
+  | some p => exact parses_paramlist p h k
+  | none =>
+    cases k with
+    | nil => exact Parses.ref (n := nParamList) ((Parses.map (Parses.s_ifTok_nil Parses.eps)).s_to rfl)
+    | cons t r =>
+      have hb := hk t r rfl
+      have h1 : t.kind ≠ Kind.Comment := fun e => hb (by simp [e])
+      have h2 : [Kind.OBracket].contains t.kind = false := by
+        cases hc : [Kind.OBracket].contains t.kind with
+        | false => rfl
+        | true =>
+          have : t.kind = Kind.OBracket := by simpa using hc
+          exact absurd (by simp [this]) hb
+      exact Parses.ref (n := nParamList) ((Parses.map (Parses.s_ifTok_miss h1 h2 Parses.eps)).s_to rfl)
+
 theorem optList_params (ps : Option ParamList) : optList (optParamsVal ps) = optParamsTree ps := by
   cases ps with
   | none => rfl
   | some p => cases p <;> rfl
+
+/-- what `parse_proc_decl` builds from the parts -/
+def procVal (first name ps mods rs : Tree) : Tree :=
+  let endNode := if mods.isSome then mods else if ps.isSome then ps else name
+  let endTok := if rs.isNone then Tree.none else rs.nth 1
+  mk "proc_decl" name.ident (Range.span first.rng (if endTok.isSome then endTok.rng else endNode.rng))
+    ([name] ++ optList ps ++ (if rs.isNone then [] else [bodyNode rs endNode])) mods.attrs (some name.rng)
+
+/-- what `parse_func_decl` builds from the parts -/
+def funcVal (first name ps ret mods rs : Tree) : Tree :=
+  let endNode := if mods.isSome then mods else ret
+  let endTok := if rs.isNone then Tree.none else rs.nth 1
+  mk "func_decl" name.ident (Range.span first.rng (if endTok.isSome then endTok.rng else endNode.rng))
+    ([name, ret] ++ optList ps ++ (if rs.isNone then [] else [bodyNode rs endNode])) mods.attrs (some name.rng)
+
+theorem MName.tree_isSome (n : MName) : n.tree.isSome = true := by cases n <;> rfl
+
+theorem procVal_body (kw : Tok) (name : MName) (ps : Option ParamList) (mods : List Mod) (ss : List (Stmt ε))
+    (hss : Stmts.WF X ss) (endT : Tok) :
+    procVal (.leaf kw) name.tree (optParamsVal ps) (modsVal mods) (resVal (Stmts.trees X ss) (Stmts.toks X ss) endT) =
+      Decl.tree X (.proc kw name ps mods (some (ss, endT))) := by
+  simp only [procVal]
+  rw [bodyNode_resVal X ss hss]
+  cases mods with
+  | nil => cases ps with
+    | none => rfl
+    | some p => cases p <;> rfl
+  | cons m rest => cases ps with
+    | none => rfl
+    | some p => cases p <;> rfl
+
+theorem procVal_nobody (kw : Tok) (name : MName) (ps : Option ParamList) (mods : List Mod) :
+    procVal (.leaf kw) name.tree (optParamsVal ps) (modsVal mods) Tree.none =
+      Decl.tree (ε := ε) X (.proc kw name ps mods none) := by
+  cases mods with
+  | nil => cases ps with
+    | none => rfl
+    | some p => cases p <;> rfl
+  | cons m rest => cases ps with
+    | none => rfl
+    | some p => cases p <;> rfl
+
+theorem funcVal_body (kw : Tok) (name : MName) (ps : Option ParamList) (ret ty : Tok) (mods : List Mod) (ss : List (Stmt ε))
+    (hss : Stmts.WF X ss) (endT : Tok) :
+    funcVal (.leaf kw) name.tree (optParamsVal ps) (typeBasic ty) (modsVal mods)
+        (resVal (Stmts.trees X ss) (Stmts.toks X ss) endT) =
+      Decl.tree X (.func kw name ps ret ty mods (some (ss, endT))) := by
+  simp only [funcVal]
+  rw [bodyNode_resVal X ss hss]
+  cases mods with
+  | nil => cases ps with
+    | none => rfl
+    | some p => cases p <;> rfl
+  | cons m rest => cases ps with
+    | none => rfl
+    | some p => cases p <;> rfl
+
+theorem funcVal_nobody (kw : Tok) (name : MName) (ps : Option ParamList) (ret ty : Tok) (mods : List Mod) :
+    funcVal (.leaf kw) name.tree (optParamsVal ps) (typeBasic ty) (modsVal mods) Tree.none =
+      Decl.tree (ε := ε) X (.func kw name ps ret ty mods none) := by
+  cases mods with
+  | nil => cases ps with
+    | none => rfl
+    | some p => cases p <;> rfl
+  | cons m rest => cases ps with
+    | none => rfl
+    | some p => cases p <;> rfl
 
 /-! ## top-level declarations -/
 
@@ -1160,78 +1376,129 @@ theorem fails_gFunc (t : Tok) (r : List Tok) (h : t.kind ≠ Kind.Func) (hc : t.
 
 include hX
 
-theorem rt_proc (kw name : Tok) (ps : Option ParamList) (body : List (Stmt ε)) (endT : Tok)
-    (h : (Decl.proc kw name ps body endT).WF X) : DeclRT X (.proc kw name ps body endT) := by
-  intro k _
-  obtain ⟨hkw, hn, hps, hb, hfree, he⟩ := h
-  have hB : SStop (Stmts.toks X body ++ endT :: k) := sstop_stmts X body hb _ (sstop_end k (by rw [he]; decide))
+omit hX in
+theorem parses_methodmods_top (k : List Tok) (hk : TStop k) : Parses (.ref nMethodMods) k k (Tree.list []) := by
+  cases k with
+  | nil => exact Parses.ref (n := nMethodMods) (Parses.s_ifEof_nil Parses.eps)
+  | cons t r =>
+    have hmod : Fails gMethodModTok (t :: r) :=
+      Fails.altL (gs := [toks memberModKinds, gExternal, .tok Kind.Forward]) (by
+        intro a ha
+        simp only [List.mem_cons, List.not_mem_nil, or_false] at ha
+        rcases ha with rfl | rfl | rfl
+        · exact hk.fails_toks _ (by decide)
+        · exact Fails.map (Fails.seqL (pre := []) ParsesList.nil (hk.fails_tok _ (by decide)))
+        · exact hk.fails_tok _ (by decide))
+    exact Parses.ref (n := nMethodMods) (Parses.s_ifEof_cons (a := .eps (Tree.list []))
+      (Parses.alt2 (Fails.map (Fails.seq1 hmod)) Parses.eps))
+
+omit hX in
+theorem HStop.of_tstop {k : List Tok} (h : TStop k) : HStop k := by
+  intro t r e hin
+  have := h t r e
+  simp only [List.mem_cons, List.not_mem_nil, or_false] at hin
+  rcases hin with hin | hin | hin <;> rw [hin] at this <;> revert this <;> decide
+
+/-- the body part of a method: where parsing stands after the modifiers, what `parse_method_modifiers` sees there,
+    and what the rest of the method parser yields -/
+theorem method_body (endK : Kind) (hK : endK = Kind.EndProc ∨ endK = Kind.EndFunc) (mods : List Mod)
+    (body : Option (List (Stmt ε) × Tok)) (hb : bodyWF X endK mods body) (k : List Tok) (hk : TStop k) :
+    HStop (bodyToks X body ++ k) ∧ Parses (.ref nMethodMods) (bodyToks X body ++ k) (bodyToks X body ++ k) (Tree.list []) ∧
+    match body with
+    | none => hasBodyB mods = false
+    | some (ss, endT) =>
+      hasBodyB mods = true ∧ Stmts.WF X ss ∧
+      Parses (.reslice [endK, Kind.End] (.ref nBody)) (bodyToks X body ++ k) k
+        (resVal (Stmts.trees X ss) (Stmts.toks X ss) endT) := by
+  cases body with
+  | none => exact ⟨HStop.of_tstop hk, parses_methodmods_top k hk, hb⟩
+  | some b =>
+    obtain ⟨ss, endT⟩ := b
+    obtain ⟨hh, hss, hfree, he⟩ := hb
+    have hends : endT.kind ∈ stmtEnds := by rcases hK with h | h <;> rw [he, h] <;> decide
+    have hB : SStop (Stmts.toks X ss ++ endT :: k) := sstop_stmts X ss hss _ (sstop_end k hends)
+    have hres := parses_reslice X hX [endK, Kind.End] ss hss hfree endT (by rw [he]; simp) k
+    have e : bodyToks X (some (ss, endT)) ++ k = Stmts.toks X ss ++ endT :: k := by simp [bodyToks]
+    rw [e]
+    exact ⟨HStop.of_sstop hB, parses_methodmods_nil _ hB, hh, hss, hres⟩
+
+theorem rt_proc (kw : Tok) (name : MName) (ps : Option ParamList) (mods : List Mod) (body : Option (List (Stmt ε) × Tok))
+    (h : (Decl.proc kw name ps mods body).WF X) : DeclRT X (.proc kw name ps mods body) := by
+  intro k hk
+  obtain ⟨hkw, hn, hps, hmods, hb⟩ := h
+  obtain ⟨hHB, hmm, hbody⟩ := method_body X hX Kind.EndProc (Or.inl rfl) mods body hb k hk
+  have hHM := hstop_mods mods hmods _ hHB
   have hhdr := Parses.seqL (ParsesList.cons (Parses.tok hkw)
-    (ParsesList.cons (parses_methodname name _ hn (fails_pound ps hps _ hB))
-      (ParsesList.cons (parses_optparams ps hps _ hB) (ParsesList.cons (parses_methodmods _ hB) ParsesList.nil))))
-  have hres := parses_reslice X hX [Kind.EndProc, Kind.End] body hb hfree endT (by rw [he]; decide) k
-  have hdep := Parses.s_dep_yes (test := fun h => hasBody (methodModsNode (h.nth 3))) hhdr rfl hres
-  have hemit := Parses.s_emit (fn := fun v =>
-        let rs := v.nth 1
-        if rs.isSome && (rs.nth 1).isNone then some ⟨((v.nth 0).nth 0).rng, "proc end token not found"⟩ else none) hdep rfl
-  have hg : Parses gProc (kw :: name :: (optParamsToks ps ++ (Stmts.toks X body ++ endT :: k))) k
-      (Decl.tree X (.proc kw name ps body endT)) :=
-    (Parses.map hemit).s_to (by
-      cases ps with
-      | none =>
-        exact congrArg (fun b => Gram.mk "proc_decl" name.value (Range.span kw.rng endT.rng)
-          ([terminal (.leaf name)] ++ [] ++ [b]) [] (some name.rng))
-          (bodyNode_resVal X body hb endT (terminal (.leaf name)))
-      | some p =>
-        cases p with
-        | empty lp rp =>
-          exact congrArg (fun b => Gram.mk "proc_decl" name.value (Range.span kw.rng endT.rng)
-            ([terminal (.leaf name)] ++ [(ParamList.empty lp rp).tree] ++ [b]) [] (some name.rng))
-            (bodyNode_resVal X body hb endT (ParamList.empty lp rp).tree)
-        | cons lp first rest rp =>
-          exact congrArg (fun b => Gram.mk "proc_decl" name.value (Range.span kw.rng endT.rng)
-            ([terminal (.leaf name)] ++ [(ParamList.cons lp first rest rp).tree] ++ [b]) [] (some name.rng))
-            (bodyNode_resVal X body hb endT (ParamList.cons lp first rest rp).tree))
-  have hfin : Parses gTopItem (kw :: name :: (optParamsToks ps ++ (Stmts.toks X body ++ endT :: k))) k _ :=
+    (ParsesList.cons (parses_mname name hn _ (fails_pound ps hps _ hHM))
+      (ParsesList.cons (parses_optparams_h ps hps _ hHM) (ParsesList.cons (parses_mods mods hmods _ hmm) ParsesList.nil))))
+  have htest : hasBody (methodModsNode (Tree.list (mods.map (fun m => Tree.leaf m.leaf)))) = hasBodyB mods := by
+    rw [methodMods_val, hasBody_val mods hmods]
+  have hg : Parses gProc (kw :: (name.toks ++ (optParamsToks ps ++ (modsToks mods ++ (bodyToks X body ++ k))))) k
+      (Decl.tree X (.proc kw name ps mods body)) := by
+    cases body with
+    | none =>
+      have hdep := Parses.s_dep_no (test := fun h => hasBody (methodModsNode (h.nth 3)))
+        (b := .reslice [Kind.EndProc, Kind.End] (.ref nBody)) hhdr (htest.trans hbody)
+      have hemit := Parses.s_emit (fn := fun v =>
+            let rs := v.nth 1
+            if rs.isSome && (rs.nth 1).isNone then some ⟨((v.nth 0).nth 0).rng, "proc end token not found"⟩ else none) hdep rfl
+      exact (Parses.map hemit).s_to (by
+        rw [← procVal_nobody X kw name ps mods, ← methodMods_val]
+        rfl)
+    | some b =>
+      obtain ⟨ss, endT⟩ := b
+      obtain ⟨hh, hss, hres⟩ := hbody
+      have hdep := Parses.s_dep_yes (test := fun h => hasBody (methodModsNode (h.nth 3))) hhdr (htest.trans hh) hres
+      have hemit := Parses.s_emit (fn := fun v =>
+            let rs := v.nth 1
+            if rs.isSome && (rs.nth 1).isNone then some ⟨((v.nth 0).nth 0).rng, "proc end token not found"⟩ else none) hdep rfl
+      exact (Parses.map hemit).s_to (by
+        rw [← procVal_body X kw name ps mods ss hss endT, ← methodMods_val]
+        rfl)
+  have hfin : Parses gTopItem (kw :: (name.toks ++ (optParamsToks ps ++ (modsToks mods ++ (bodyToks X body ++ k))))) k _ :=
     Parses.altL (pre := []) (post := [gFunc, gComment, gClass, gModule, gUses, gTypeDecl, gConstDecl, gGlobalVar, .ref nAnnotations])
       (by intro a ha; cases ha) hg
   simpa [Decl.toks] using hfin
 
-theorem rt_func (kw name : Tok) (ps : Option ParamList) (ret ty : Tok) (body : List (Stmt ε)) (endT : Tok)
-    (h : (Decl.func kw name ps ret ty body endT).WF X) : DeclRT X (.func kw name ps ret ty body endT) := by
-  intro k _
-  obtain ⟨hkw, hn, hps, hret, hty, hb, hfree, he⟩ := h
-  have hB : SStop (Stmts.toks X body ++ endT :: k) := sstop_stmts X body hb _ (sstop_end k (by rw [he]; decide))
-  have hR : SStop (ret :: ty :: (Stmts.toks X body ++ endT :: k)) := SStop.cons (by rw [hret]; decide +kernel)
-  have hbasic : Parses (.ref nTypeBasic) (ty :: (Stmts.toks X body ++ endT :: k)) (Stmts.toks X body ++ endT :: k) (typeBasic ty) :=
+theorem rt_func (kw : Tok) (name : MName) (ps : Option ParamList) (ret ty : Tok) (mods : List Mod)
+    (body : Option (List (Stmt ε) × Tok)) (h : (Decl.func kw name ps ret ty mods body).WF X) :
+    DeclRT X (.func kw name ps ret ty mods body) := by
+  intro k hk
+  obtain ⟨hkw, hn, hps, hret, hty, hmods, hb⟩ := h
+  obtain ⟨hHB, hmm, hbody⟩ := method_body X hX Kind.EndFunc (Or.inr rfl) mods body hb k hk
+  have hR : HStop (ret :: ty :: (modsToks mods ++ (bodyToks X body ++ k))) := HStop.cons (by rw [hret]; decide)
+  have hbasic : Parses (.ref nTypeBasic) (ty :: (modsToks mods ++ (bodyToks X body ++ k))) (modsToks mods ++ (bodyToks X body ++ k))
+      (typeBasic ty) :=
     Parses.ref (n := nTypeBasic) (Parses.map (fn := fun t => mk "type_basic" t.ident t.rng []) (Parses.tok hty))
   have hhdr := Parses.seqL (ParsesList.cons (Parses.tok hkw)
-    (ParsesList.cons (parses_methodname name _ hn (fails_pound ps hps _ hR))
-      (ParsesList.cons (parses_optparams ps hps _ hR) (ParsesList.cons (Parses.tok hret) (ParsesList.cons hbasic
-        (ParsesList.cons (parses_methodmods _ hB) ParsesList.nil))))))
-  have hres := parses_reslice X hX [Kind.EndFunc, Kind.End] body hb hfree endT (by rw [he]; decide) k
-  have hdep := Parses.s_dep_yes (test := fun h => hasBody (methodModsNode (h.nth 5))) hhdr rfl hres
-  have hemit := Parses.s_emit (fn := fun v =>
-        let rs := v.nth 1
-        if rs.isSome && (rs.nth 1).isNone then some ⟨((v.nth 0).nth 0).rng, "func end token not found"⟩ else none) hdep rfl
-  have hg : Parses gFunc (kw :: name :: (optParamsToks ps ++ ret :: ty :: (Stmts.toks X body ++ endT :: k))) k
-      (Decl.tree X (.func kw name ps ret ty body endT)) :=
-    (Parses.map hemit).s_to (by
-      cases ps with
-      | none =>
-        exact congrArg (fun b => Gram.mk "func_decl" name.value (Range.span kw.rng endT.rng)
-          ([terminal (.leaf name), typeBasic ty] ++ [] ++ [b]) [] (some name.rng))
-          (bodyNode_resVal X body hb endT (typeBasic ty))
-      | some p =>
-        cases p with
-        | empty lp rp =>
-          exact congrArg (fun b => Gram.mk "func_decl" name.value (Range.span kw.rng endT.rng)
-            ([terminal (.leaf name), typeBasic ty] ++ [(ParamList.empty lp rp).tree] ++ [b]) [] (some name.rng))
-            (bodyNode_resVal X body hb endT (typeBasic ty))
-        | cons lp first rest rp =>
-          exact congrArg (fun b => Gram.mk "func_decl" name.value (Range.span kw.rng endT.rng)
-            ([terminal (.leaf name), typeBasic ty] ++ [(ParamList.cons lp first rest rp).tree] ++ [b]) [] (some name.rng))
-            (bodyNode_resVal X body hb endT (typeBasic ty)))
-  have hfin : Parses gTopItem (kw :: name :: (optParamsToks ps ++ ret :: ty :: (Stmts.toks X body ++ endT :: k))) k _ :=
+    (ParsesList.cons (parses_mname name hn _ (fails_pound ps hps _ hR))
+      (ParsesList.cons (parses_optparams_h ps hps _ hR) (ParsesList.cons (Parses.tok hret) (ParsesList.cons hbasic
+        (ParsesList.cons (parses_mods mods hmods _ hmm) ParsesList.nil))))))
+  have htest : hasBody (methodModsNode (Tree.list (mods.map (fun m => Tree.leaf m.leaf)))) = hasBodyB mods := by
+    rw [methodMods_val, hasBody_val mods hmods]
+  have hg : Parses gFunc (kw :: (name.toks ++ (optParamsToks ps ++ ret :: ty :: (modsToks mods ++ (bodyToks X body ++ k))))) k
+      (Decl.tree X (.func kw name ps ret ty mods body)) := by
+    cases body with
+    | none =>
+      have hdep := Parses.s_dep_no (test := fun h => hasBody (methodModsNode (h.nth 5)))
+        (b := .reslice [Kind.EndFunc, Kind.End] (.ref nBody)) hhdr (htest.trans hbody)
+      have hemit := Parses.s_emit (fn := fun v =>
+            let rs := v.nth 1
+            if rs.isSome && (rs.nth 1).isNone then some ⟨((v.nth 0).nth 0).rng, "func end token not found"⟩ else none) hdep rfl
+      exact (Parses.map hemit).s_to (by
+        rw [← funcVal_nobody X kw name ps ret ty mods, ← methodMods_val]
+        rfl)
+    | some b =>
+      obtain ⟨ss, endT⟩ := b
+      obtain ⟨hh, hss, hres⟩ := hbody
+      have hdep := Parses.s_dep_yes (test := fun h => hasBody (methodModsNode (h.nth 5))) hhdr (htest.trans hh) hres
+      have hemit := Parses.s_emit (fn := fun v =>
+            let rs := v.nth 1
+            if rs.isSome && (rs.nth 1).isNone then some ⟨((v.nth 0).nth 0).rng, "func end token not found"⟩ else none) hdep rfl
+      exact (Parses.map hemit).s_to (by
+        rw [← funcVal_body X kw name ps ret ty mods ss hss endT, ← methodMods_val]
+        rfl)
+  have hfin : Parses gTopItem (kw :: (name.toks ++ (optParamsToks ps ++ ret :: ty :: (modsToks mods ++ (bodyToks X body ++ k))))) k _ :=
     Parses.altL (pre := [gProc]) (post := [gComment, gClass, gModule, gUses, gTypeDecl, gConstDecl, gGlobalVar, .ref nAnnotations])
       (by
         intro a ha
@@ -1343,16 +1610,16 @@ theorem rt_cls (kw name : Tok) (parent : Option (Tok × Tok × Tok)) (h : (Decl.
 include hX in
 theorem decl_rt (d : Decl ε) (h : d.WF X) : DeclRT X d := by
   cases d with
-  | proc kw name ps body endT => exact rt_proc X hX kw name ps body endT h
-  | func kw name ps ret ty body endT => exact rt_func X hX kw name ps ret ty body endT h
+  | proc kw name ps mods body => exact rt_proc X hX kw name ps mods body h
+  | func kw name ps ret ty mods body => exact rt_func X hX kw name ps ret ty mods body h
   | const kw name eq lit => exact rt_const X kw name eq lit h
   | field name colon ty => exact rt_field X name colon ty h
   | cls kw name parent => exact rt_cls X kw name parent h
 
 theorem Decl.first (d : Decl ε) (h : d.WF X) : ∃ t r, d.toks X = t :: r ∧ t.kind ∈ declStarts := by
   cases d with
-  | proc kw name ps body endT => exact ⟨kw, _, rfl, by rw [h.1]; decide⟩
-  | func kw name ps ret ty body endT => exact ⟨kw, _, rfl, by rw [h.1]; decide⟩
+  | proc kw name ps mods body => exact ⟨kw, _, rfl, by rw [h.1]; decide⟩
+  | func kw name ps ret ty mods body => exact ⟨kw, _, rfl, by rw [h.1]; decide⟩
   | const kw name eq lit => exact ⟨kw, _, rfl, by rw [h.1]; decide⟩
   | field name colon ty => exact ⟨name, _, rfl, by rw [h.1]; decide⟩
   | cls kw name parent => exact ⟨kw, _, rfl, by rw [h.1]; decide⟩
@@ -1360,6 +1627,14 @@ theorem Decl.first (d : Decl ε) (h : d.WF X) : ∃ t r, d.toks X = t :: r ∧ t
 theorem Decl.tree_ok (d : Decl ε) : okTree (d.tree X) = true := by
   cases d with
   | cls kw name parent => cases parent <;> rfl
+  | proc kw name ps mods body =>
+    cases body with
+    | none => rfl
+    | some b => obtain ⟨ss, e⟩ := b; rfl
+  | func kw name ps ret ty mods body =>
+    cases body with
+    | none => rfl
+    | some b => obtain ⟨ss, e⟩ := b; rfl
   | _ => rfl
 
 theorem tstop_prog (p : Prog ε) (h : Prog.WF X p) : TStop (Prog.toks X p) := by
@@ -1438,8 +1713,25 @@ theorem parentWfb_iff (q : Option (Tok × Tok × Tok)) : parentWfb q = true ↔ 
   | none => simp [parentWfb, parentWF]
   | some q => obtain ⟨a, b, c⟩ := q; simp [parentWfb, parentWF, and_assoc]
 
+theorem MName.wfb_iff (n : MName) : n.wfb = true ↔ n.WF := by
+  cases n <;> simp [MName.wfb, MName.WF, and_assoc]
+
+theorem Mod.wfb_iff (m : Mod) : m.wfb = true ↔ m.WF := by
+  cases m <;> simp [Mod.wfb, Mod.WF]
+
+theorem modsWfb_iff (ms : List Mod) : modsWfb ms = true ↔ modsWF ms := by
+  induction ms with
+  | nil => simp [modsWfb, modsWF]
+  | cons m rest ih => simp [modsWfb, modsWF, ih, Mod.wfb_iff]
+
+theorem bodyWfb_iff (endK : Kind) (mods : List Mod) (body : Option (List (Stmt ε) × Tok)) :
+    bodyWfb X endK mods body = true ↔ bodyWF X endK mods body := by
+  cases body with
+  | none => simp [bodyWfb, bodyWF]
+  | some b => obtain ⟨ss, e⟩ := b; simp [bodyWfb, bodyWF, Stmts.wfb_iff, and_assoc]
+
 theorem Decl.wfb_iff (d : Decl ε) : d.wfb X = true ↔ d.WF X := by
-  cases d <;> simp [Decl.wfb, Decl.WF, Stmts.wfb_iff, optParamsWfb_iff, parentWfb_iff, and_assoc]
+  cases d <;> simp [Decl.wfb, Decl.WF, optParamsWfb_iff, parentWfb_iff, MName.wfb_iff, modsWfb_iff, bodyWfb_iff, and_assoc]
 
 theorem Prog.wfb_iff (p : Prog ε) : Prog.wfb X p = true ↔ Prog.WF X p := by
   induction p with
